@@ -2,3 +2,5 @@ pub mod c08;
 pub mod cpu;
 pub mod c09;
 pub mod c05;
+pub mod c11;
+pub mod c13;
